@@ -12,6 +12,24 @@ def declare(reg):
                  ensures={"size": "result == len(rendered(msg, True))", "nonneg": "result >= 0"}, **T, note="C16 (a): same renderer as msg_as_bytes")
     reg.contract(P, "dot_stuff", params={"data": "str"}, ret="str", ensures={"spec": "result == stuffed(data)", "crlf-kept": "result.endswith('\\r\\n') == data.endswith('\\r\\n')"}, **T,
                  note="bounded tier (harness.pop3:DotStuff): unstuff(dot_stuff(d)) == d and no line of the result is a lone '.'")
+    # the body of dot_stuff, line by line (the contract above, used at call sites, names the result `stuffed(data)`; this second contract on the
+    # same real body says what that is: one output line per input line, a '.' put in front of exactly the lines that start with one, joined by CRLF)
+    reg.contract(P, "dot_stuff#lines", params={"data": "str"}, ret="str",
+                 ensures={
+                     "joined": "result == '\\r\\n'.join(local('result'))",
+                     "one-line-per-line": "len(local('result')) == len(data.split('\\r\\n'))",
+                     "each-line-stuffed": "forall(lambda j: implies(0 <= j and j < len(local('result')), local('result')[j] == "
+                                          "ite(data.split('\\r\\n')[j].startswith('.'), '.' + data.split('\\r\\n')[j], data.split('\\r\\n')[j])))",
+                     "no-lone-dot-line": "forall(lambda j: implies(0 <= j and j < len(local('result')), local('result')[j] != '.'))",
+                 },
+                 raises={}, locals_={"result": "list[str]", "lines": "list[str]"},
+                 loops={0: {"invariant": {
+                     "count": "len(result) == _i",
+                     "stuffed-so-far": "forall(lambda j: implies(0 <= j and j < _i, result[j] == ite(_it[j].startswith('.'), '.' + _it[j], _it[j])))",
+                 }}},
+                 props=["C20"],
+                 note="assumes of CPython only that bytes.split / bytes.join are deterministic functions (uninterpreted); that joining with CRLF and splitting at CRLF "
+                      "are inverse on lines without CRLF is what the bounded oracle harness.pop3:DotStuff exercises")
     reg.specfn("rendered", "msg: opaque:EmailMessage, hdrs: bool", "str", doc="A-EMAIL: the bytes generator's rendering (uninterpreted, deterministic)")
     reg.specfn("stuffed", "data: str", "str", doc="RFC 1939 dot-stuffing of a CRLF-separated text (uninterpreted here; bounded tier checks dot_stuff)")
     reg.specfn("msg_of", "m: ref:Mailbox, key: int", "opaque:EmailMessage", doc="the message stored under MH key `key` (uninterpreted)")
